@@ -63,6 +63,7 @@ func main() {
 	rss := fl.String("rs", "20,1,3", "record sizes to cycle through")
 	replay := fl.String("replay", "", "replay a history file instead of generating")
 	work := fl.String("work", "", "scratch directory (default: a fresh temp dir, removed afterwards)")
+	knownPath := fl.String("known", "/verif/known-findings.jsonl", "known findings file (read only)")
 	fl.Parse(os.Args[2:])
 
 	scratch := *work
@@ -78,7 +79,7 @@ func main() {
 	switch stream {
 	case "fs":
 		res = runFS(fsOpts{seed: *seed, n: *n, length: *length, workers: *workers, driver: *driver, wild: *wild,
-			oracles: splitList(*oracles), rs: ints(*rss), scratch: scratch, replay: *replay})
+			oracles: splitList(*oracles), rs: ints(*rss), scratch: scratch, replay: *replay, known: loadKnown(*knownPath)})
 	default:
 		fmt.Fprintln(os.Stderr, "unknown stream", stream)
 		os.Exit(2)
@@ -132,6 +133,7 @@ type fsOpts struct {
 	rs      []int
 	scratch string
 	replay  string
+	known   *Known
 }
 
 func has(xs []string, x string) bool {
